@@ -298,6 +298,22 @@ def r3_attribution(ctx):
     from sa.astutil import flow_exprs as _fx
 
     ok = ok and all(kw(c, "data") is not None and "value" in _fx(so, kw(c, "data"))[0] for c in fc)
+    # ... and each format writes the bucket AS READ: nothing that reaches `data=` is carried over from the previous
+    # format of the same list (`data = rescale(data)` inside the format loop feeds the rescaled copy to the formats
+    # that follow)
+    for c in fc:
+        lp_ = enclosing_loop(c)
+        if lp_ is None or kw(c, "data") is None:
+            continue
+        flows = _fx(so, kw(c, "data"))[0]
+        for s_ in walk_ordered(lp_):
+            if isinstance(s_, (ast.Assign, ast.AnnAssign, ast.AugAssign)) and getattr(s_, "value", None) is not None:
+                tg_ = s_.targets if isinstance(s_, ast.Assign) else [s_.target]
+                for t_ in tg_:
+                    if isinstance(t_, ast.Name) and t_.id in flows and (isinstance(s_, ast.AugAssign) or t_.id in names_in(s_.value)):
+                        outside = [d_ for d_, _v in local_defs(so, t_.id) if not contains(lp_, d_)]
+                        if outside:
+                            ok = False
     fd = [v for s_, v in local_defs(so, "func") if v is not None]
     ok = ok and len(fd) == 1 and norm(fd[0]) == "save_methods[out_format]"
     ctx.check(ok, so.qual, "value read under valid_name is written under a name derived from valid_name with the run's number and format" if ok else "Outputs.save_to_file can write a bucket under another bucket's / run's name", where=so, node=so.node)
